@@ -142,8 +142,10 @@ CLAIMS["C06"] = proof(
     "Schedule half, clause (b) PROVED: C06_sched_readers — on the micro-step machine of coq/Sched/RwReadEvSched.v (WRITER_BIT and the event no_writer at atomic-action granularity; every poll of a read() future cut at its compare_exchange, listen, "
     "the two loads of the word, the poll of the listener, notify(1) and the drop of the listener; writers abstract: the bit is set at any time it is clear and cleared at any time it is set, the clearing thread owing no_writer.notify(1); what a future saw when it "
     "was created is arbitrary; spurious polls, cancellation) for EVERY schedule a state with the bit clear, nothing in flight and every woken future re-polled has no waiting read(); C06_sched_readers_prefix_refuted: the machine without the F2b repair loses a "
-    "wake-up on a schedule that needs a thread interleaving. Clause (c) at schedule level is the inner Mutex = C05_sched (restated as C06_sched_inner_mutex). Clause (d) (the single writer / upgrader on no_readers), the composition of the three "
-    "events under threads, and blocking forms: not proved, covered by tie lemmas and the loom scenario rw_downgrade_race. "
+    "wake-up on a schedule that needs a thread interleaving. Clause (c) at schedule level is the inner Mutex = C05_sched (restated as C06_sched_inner_mutex). The two sides run TOGETHER on one WRITER_BIT in coq/Sched/RwComp.v (C06_sched_composed): every composed action is translated into the actions of both machines the code's atomic step consists of, each component "
+    "of a composed run is a run of its machine, the two copies of the bit agree and equal 'some future is past the inner mutex'; hence for every composed schedule: no write()/upgrade() between its fetch_or / fetch_sub and the end of its guard + reader side at rest "
+    "=> no read() waits, and no reader left + writer side at rest => no write()/upgrade() waits. The inner mutex is still abstract in that product (its own theorem is C05_sched); blocking forms and further interplay are searched by the loom scenarios "
+    "rw_downgrade_race, rw_reader_chain, rw_writer_vs_last_reader, rw_cancel_vs_last_reader, blocking_forms. "
     "Clause (d) PROVED at schedule level as well: C06_sched_writer — coq/Sched/RwWriteEvSched.v (reader count, WRITER_BIT and no_readers at atomic-action granularity; write() past the inner mutex and upgrade() run the same loop; a reader leaving is cut between its "
     "fetch_sub and its notify(1); cancellation = write_unlock then the listener; the inner mutex abstract: at most one future past it): for EVERY schedule, no reader left + nothing in flight + every woken future re-polled => no write()/upgrade() waits; "
     "C06_sched_writer_prefix_refuted: the machine without the F2c repair loses a wake-up. The three machines (readers, writer, inner mutex) are not composed into one. " + CORR, NOTE)
